@@ -14,13 +14,13 @@ MaxE3   == EnvInt("VERIF_MAXE3", 0)     \* |exponent| bound for three-factor sid
 Prefixed == EnvInt("VERIF_PREFIXED", 0)
 
 MCFund == {"L", "T", "M", "I"}
-BaseSeq == <<"ma", "mc", "sa", "gb", "gc", "aa", "fa", "ea", "ra", "pa", "mb", "sb", "ga", "pb", "va", "ia", "ib", "la", "gd">>
+BaseSeq == <<"ma", "mc", "md", "sa", "gb", "gc", "aa", "fa", "ea", "ra", "pa", "mb", "sb", "ga", "pb", "va", "ia", "ib", "la", "gd">>
 \* the units that pairs are enumerated over (a prefix of BaseSeq; all declarations stay in force)
-EnumBase == {BaseSeq[i] : i \in 1..EnvInt("VERIF_NENUM", 19)}
+EnumBase == {BaseSeq[i] : i \in 1..EnvInt("VERIF_NENUM", 20)}
 MCBase == {BaseSeq[i] : i \in 1..Len(BaseSeq)}
 D(l, t, m, i) == [L |-> l, T |-> t, M |-> m, I |-> i]
 MCbdim == [b \in MCBase |->
-   CASE b \in {"ma", "mb", "mc"} -> D(1, 0, 0, 0)
+   CASE b \in {"ma", "mb", "mc", "md"} -> D(1, 0, 0, 0)
      [] b \in {"sa", "sb"}       -> D(0, 1, 0, 0)
      [] b \in {"ga", "gb", "gc", "gd"} -> D(0, 0, 1, 0)
      [] b = "aa"                 -> D(1, -2, 0, 0)      \* acceleration-like (g-force)
@@ -53,7 +53,8 @@ MCCands == <<
   C("ib", <<0, 0, 0>>, 0, {<<"ia", 1>>}),                          \* 16  ib = 1 ia
   C("la", <<6, 0, 4>>, 0, {<<"gb", 1>>, <<"sa", -2>>}),            \* 17  la = 40000 joule-likes / ma^2
   C("gb", <<0, 0, 0>>, 3, {<<"ga", 1>>}),                          \* 18  gb = 1 kilo-ga      (redundant, prefixed)
-  CL("gd", 3, <<1, 0, 0>>, 0, {<<"gb", 1>>}) >>                    \* 19  1 kilo-gd = 2 gb     (prefixed LEFT side)
+  CL("gd", 3, <<1, 0, 0>>, 0, {<<"gb", 1>>}),                      \* 19  1 kilo-gd = 2 gb     (prefixed LEFT side)
+  C("md", <<0, 0, 1>>, 0, {<<"mc", 1>>}) >>                        \* 20  md = 5 mc ONLY: two hops from ma and mb
 MCRoots == {"ma", "sa", "ga", "ia"}
 
 Mask == EnvInt("VERIF_SUBSET", 0)
